@@ -3,18 +3,18 @@
 From QSX Require Export LP.ILP.
 Local Open Scope Q_scope.
 
-Definition dz_l (y : list Q) (c : icol) : Q := ic_obj c - dot_sparse (ic_ent c) y.
+Definition dz_l (y : list Q) (c : icol) : Q := rsub (ic_obj c) (dot_sparse (ic_ent c) y).
 
 (* activity of row i, computed column by column *)
 Fixpoint rowact_l (cols : list icol) (z : list Q) (i : nat) : Q :=
   match cols, z with
-  | c :: cs, zj :: zs => coefAt (ic_ent c) i * zj + rowact_l cs zs i
+  | c :: cs, zj :: zs => radd (rmul (coefAt (ic_ent c) i) zj) (rowact_l cs zs i)
   | _, _ => 0
   end.
 
 Fixpoint objval_l (cols : list icol) (z : list Q) : Q :=
   match cols, z with
-  | c :: cs, zj :: zs => ic_obj c * zj + objval_l cs zs
+  | c :: cs, zj :: zs => radd (rmul (ic_obj c) zj) (objval_l cs zs)
   | _, _ => 0
   end.
 
@@ -33,7 +33,7 @@ Definition dual_ok (I : infp) (mx : bool) (c : icol) (zj d : Q) : bool :=
 Definition dual_term (mx : bool) (c : icol) (d : Q) : Q :=
   let pos := if mx then Qltb d 0 else Qltb 0 d in
   let neg := if mx then Qltb 0 d else Qltb d 0 in
-  if pos then d * ic_lo c else if neg then d * ic_up c else 0.
+  if pos then rmul d (ic_lo c) else if neg then rmul d (ic_up c) else 0.
 
 Fixpoint forallb2 {A B} (f : A -> B -> bool) (l : list A) (m : list B) : bool :=
   match l, m with
@@ -42,7 +42,7 @@ Fixpoint forallb2 {A B} (f : A -> B -> bool) (l : list A) (m : list B) : bool :=
   | _, _ => false
   end.
 
-Definition dot_l (a b : list Q) : Q := qsum (map (fun p => fst p * snd p) (combine a b)).
+Definition dot_l (a b : list Q) : Q := qsum (map (fun p => rmul (fst p) (snd p)) (combine a b)).
 
 Definition check_kkt (I : infp) (P : ilp) (z y : list Q) (v : Q) : bool :=
   wf_ilp P &&
@@ -51,7 +51,7 @@ Definition check_kkt (I : infp) (P : ilp) (z y : list Q) (v : Q) : bool :=
   forallb2 (bound_ok I) (i_cols P) z &&
   forallb2 (fun c zj => dual_ok I (i_max P) c zj (dz_l y c)) (i_cols P) z &&
   Qeq_bool (objval_l (i_cols P) z) v &&
-  Qeq_bool (dot_l y (i_rhs P) + qsum (map (fun c => dual_term (i_max P) c (dz_l y c)) (i_cols P))) v.
+  Qeq_bool (radd (dot_l y (i_rhs P)) (qsum (map (fun c => dual_term (i_max P) c (dz_l y c)) (i_cols P)))) v.
 
 (* Farkas: y with  r_j = -(A^T y)_j ;  r_j < 0 leans on the upper bound, r_j > 0 on
    the lower one; neither may be infinite;  y.b + sum r_j * bound_j > 0. *)
@@ -60,12 +60,12 @@ Definition farkas_col_ok (I : infp) (c : icol) (y : list Q) : bool :=
   (negb (Qltb r 0) || negb (infup I (ic_up c))) && (negb (Qltb 0 r) || negb (inflo I (ic_lo c))).
 Definition farkas_term (c : icol) (y : list Q) : Q :=
   let r := - dot_sparse (ic_ent c) y in
-  if Qltb r 0 then r * ic_up c else r * ic_lo c.
+  if Qltb r 0 then rmul r (ic_up c) else rmul r (ic_lo c).
 
 Definition check_farkas (I : infp) (P : ilp) (y : list Q) : bool :=
   wf_ilp P && Nat.eqb (length y) (nrows P) &&
   forallb (fun c => farkas_col_ok I c y) (i_cols P) &&
-  Qltb 0 (dot_l y (i_rhs P) + qsum (map (fun c => farkas_term c y) (i_cols P))).
+  Qltb 0 (radd (dot_l y (i_rhs P)) (qsum (map (fun c => farkas_term c y) (i_cols P)))).
 
 (* Unboundedness: a feasible point z0 and a direction d with A d = 0, d_j >= 0
    where the lower bound is finite, d_j <= 0 where the upper bound is finite,
